@@ -413,6 +413,108 @@ Section R.
     rewrite (dewar_bit_read keys' cf df tf ext' cid' pn (dewar_write_checked _ _ _ _ _ _ _ _ _ Hw)).
     rewrite Hx. reflexivity.
   Qed.
+  (* ---- DIO bits of the Switch board ---- *)
+  Ltac brk3 :=
+    repeat match goal with
+    | |- context [match ?x with _ => _ end] =>
+        match type of x with
+        | bool => destruct x eqn:?
+        | option _ => destruct x eqn:?
+        | list _ => destruct x
+        | kind => is_var x; destruct x
+        | prod _ _ => destruct x eqn:?
+        end
+    end.
+  Ltac go3 := repeat (progress (unf2; cbn [b_com b_kind e_board e_ans e_tick]; brk3)).
+
+  Definition switch_bit (b : board) (pn : Z) : option Z :=
+    match b_kind b with KSwitch d w => Some (switch_get d w pn) | _ => None end.
+
+  Lemma switch_bit_write keys c d w t ext cid pn x ex :
+    In pn SWITCH_set_data_ports ->
+    e_ans (exec keys (mkBoard c (KSwitch d w)) t KSetData ext cid (dio_params pn x)) = Some (CMD_ACK, ex) ->
+    switch_bit (e_board (exec keys (mkBoard c (KSwitch d w)) t KSetData ext cid (dio_params pn x))) pn = Some x /\
+    check_key DATA_TYPE_B01 PORT_TYPE_DIO pn = None.
+  Proof.
+    intros Hin. unfold switch_bit, RcvModel.exec, set_data, fin, dio_params. cbn [b_com b_kind].
+    change (zlen [DATA_TYPE_B01; PORT_TYPE_DIO; pn; x] <? 4) with false. cbn iota.
+    destruct (check_key DATA_TYPE_B01 PORT_TYPE_DIO pn) as [e|] eqn:E.
+    - cbn. intros H. injection H as He _. exfalso.
+      unfold check_key in E. repeat (destruct (negb _) in E; [injection E as <-; discriminate|]). discriminate.
+    - rewrite !Z.eqb_refl. cbn [andb]. unfold dio_value.
+      destruct ((x =? 0) || (x =? 1)) eqn:Ex; [|cbn [e_ans]; discriminate].
+      destruct (switch_set d w pn x) as [d' w'] eqn:Es. cbn [e_ans e_board b_kind]. intros _.
+      split; [|reflexivity]. f_equal. eapply switch_set_get_same; eauto.
+  Qed.
+
+  Lemma switch_bit_keep keys c d w t k ext cid p pn :
+    In pn SWITCH_set_data_ports ->
+    ~ (k = KSetData /\ acked (exec keys (mkBoard c (KSwitch d w)) t k ext cid p) /\
+       exists pn' x, p = dio_params pn' x /\ (pn' = pn \/ alias pn pn')) ->
+    switch_bit (e_board (exec keys (mkBoard c (KSwitch d w)) t k ext cid p)) pn = Some (switch_get d w pn).
+  Proof.
+    intros Hin. unfold switch_bit, acked.
+    destruct k; go3; intros Hn; try reflexivity. cbn [b_kind]. f_equal.
+    match goal with H : dio_value ?v = Some ?x |- _ => apply dio_value_inv in H; subst v end.
+    repeat match goal with H : (_ && _) = true |- _ => apply andb_true_iff in H as [? ?] end.
+    repeat match goal with H : (_ =? _) = true |- _ => apply Z.eqb_eq in H end. subst.
+    match goal with Hs : switch_set d w ?pn' ?x = _ |- _ =>
+      destruct (Z.eq_dec pn' pn) as [Heq|Hne];
+      [|destruct (alias_dec pn pn') as [Hal|Hal]; [|eapply switch_set_get_other; eassumption]] end.
+    - exfalso. apply Hn. split; [reflexivity|]. split; [eexists; reflexivity|].
+      do 2 eexists. split; [reflexivity|left; exact Heq].
+    - exfalso. apply Hn. split; [reflexivity|]. split; [eexists; reflexivity|].
+      do 2 eexists. split; [reflexivity|right; exact Hal].
+  Qed.
+
+  Lemma switch_bit_keep_any keys b t k ext cid p pn :
+    In pn SWITCH_set_data_ports ->
+    ~ (k = KSetData /\ acked (exec keys b t k ext cid p) /\
+       exists pn' x, p = dio_params pn' x /\ (pn' = pn \/ alias pn pn')) ->
+    switch_bit (e_board (exec keys b t k ext cid p)) pn = switch_bit b pn.
+  Proof.
+    intros Hin Hn. destruct b as [c kd]. destruct kd as [|d|d w|l].
+    - clear Hn. unfold switch_bit. destruct k; go; reflexivity.
+    - clear Hn. unfold switch_bit. destruct k; go; reflexivity.
+    - apply switch_bit_keep; assumption.
+    - clear Hn. unfold switch_bit. destruct k; go; reflexivity.
+  Qed.
+
+  Lemma switch_bit_read keys c d w t ext cid pn :
+    check_key DATA_TYPE_B01 PORT_TYPE_DIO pn = None ->
+    e_ans (exec keys (mkBoard c (KSwitch d w)) t KGetData ext cid [DATA_TYPE_B01; PORT_TYPE_DIO; pn]) =
+    Some (CMD_ACK, with_data [DATA_TYPE_B01; PORT_TYPE_DIO; pn; switch_get d w pn]).
+  Proof.
+    intros Hc. unfold RcvModel.exec, get_data, fin. cbn [b_kind b_com]. rewrite Hc.
+    change ((PORT_TYPE_DIO =? PORT_TYPE_AD24) && (DATA_TYPE_B01 =? DATA_TYPE_F32)) with false.
+    change ((PORT_TYPE_DIO =? PORT_TYPE_DIO) && (DATA_TYPE_B01 =? DATA_TYPE_B01)) with true. cbn [e_ans].
+    unfold get_extra. change (CMD_ACK =? CMD_ACK) with true. reflexivity.
+  Qed.
+
+  (* a writable DIO bit of the Switch board (ports 0,1,2,4,5,7,8,11,12,13,14) written with acknowledgement
+     reads back until the next acknowledged write of the same bit or of its alias (11 / 12) *)
+  Theorem switch_bit_readback keys c d w t ext cid pn x ex h keys' ext' cid' :
+    In pn SWITCH_set_data_ports ->
+    e_ans (exec keys (mkBoard c (KSwitch d w)) t KSetData ext cid (dio_params pn x)) = Some (CMD_ACK, ex) ->
+    let r := exec keys (mkBoard c (KSwitch d w)) t KSetData ext cid (dio_params pn x) in
+    quiet (writes_bit pn) (e_board r, e_tick r) h ->
+    e_ans (bexec (bsteps (e_board r, e_tick r) h)
+                 (BC keys' KGetData ext' cid' [DATA_TYPE_B01; PORT_TYPE_DIO; pn])) =
+    Some (CMD_ACK, with_data [DATA_TYPE_B01; PORT_TYPE_DIO; pn; x]).
+  Proof.
+    intros Hin Hw r Hq.
+    assert (Hk : forall bt cm, ~ (writes_bit pn cm /\ acked (bexec bt cm)) ->
+                 switch_bit (fst (bstep bt cm)) pn = switch_bit (fst bt) pn).
+    { intros [b0 t0] [ks k e ci p] Hn. cbn [bstep bexec fst snd] in *. apply switch_bit_keep_any; [assumption|].
+      intros (Hk1 & Ha & Hex). apply Hn. split; [split; assumption|assumption]. }
+    pose proof (history_keeps (fun b => switch_bit b pn) _ Hk h _ Hq) as Hh. cbn [fst] in Hh.
+    destruct (switch_bit_write keys c d w t ext cid pn x ex Hin Hw) as (Hbit & Hck).
+    fold r in Hbit. rewrite Hbit in Hh.
+    destruct (bsteps (e_board r, e_tick r) h) as [bf tf] eqn:Ef. cbn [fst] in Hh. cbn [bexec fst snd].
+    destruct bf as [cf kf]. unfold switch_bit in Hh. cbn [b_kind] in Hh.
+    destruct kf as [|df|df wf|lf]; try discriminate. injection Hh as Hx.
+    rewrite (switch_bit_read keys' cf df wf tf ext' cid' pn Hck). rewrite Hx. reflexivity.
+  Qed.
 End R.
 
 (* ---- what does NOT hold on the code as it is (known findings, reproduced on the implementation) ---- *)
